@@ -64,7 +64,7 @@ func (s *zzSrc) Read(p []byte) (int, error) {
 		k = 1
 	} else if s.frag == 1 && k > 1 && s.splits > 0 {
 		k = vrt.Concrete(k)
-		c := vrt.Choose(k) + 1
+		c := zzSplit(k)
 		if c < k {
 			s.splits--
 			k = c
@@ -172,4 +172,21 @@ func zzSameBytes(got, want []byte, label string) {
 		i := vrt.IntIn(0, len(want)-1)
 		vrt.Assert(got[i] == want[i], label+"-content")
 	}
+}
+
+// zzSplit picks the size of a short read out of k available bytes: every size for small k,
+// the sizes 1, k/2, k-1 (or no split) for larger k.
+func zzSplit(k int) int {
+	if k <= 8 {
+		return vrt.Choose(k) + 1
+	}
+	switch vrt.Choose(4) {
+	case 0:
+		return 1
+	case 1:
+		return k / 2
+	case 2:
+		return k - 1
+	}
+	return k
 }
